@@ -21,6 +21,15 @@ CHECKS: dict[str, dict[str, str]] = {
         "technique": "TLA+ group-law specification model-checked with TLC; TLC-generated case tables replayed into btclib; real-size events validated by TLC",
         "design_ref": "DESIGN.md section 4 C01",
     },
+    "C09": {
+        "text": ("TLC checks the commitment matrix of the three algorithms on the specification (SigHashModel: digest changes iff the BIPs "
+                 "say the hash type commits to the field, 810 combinations); digests recorded from every public route -- sig_hash.legacy / "
+                 "segwit_v0 / taproot, PrecomputedTxData, from_tx, psbt.ecdsa_sig_hash / taproot_sig_hash and PsbtView on v0 and v2 PSBTs -- "
+                 "over generated transactions, script codes and all 256 low hash-type bytes are recomputed by TLC from preimages assembled "
+                 "in TLA+ (Wire + SigHash)."),
+        "technique": "TLA+ transcription of the legacy/BIP143/BIP341 preimages; TLC model-checks the commitment matrix and validates recorded digests",
+        "design_ref": "DESIGN.md section 4 C09",
+    },
     "C20": {
         "text": ("TLC model-checks the NonceLife / SignerLife / WalletLedger / MemoCache machines (invariants and action "
                  "properties, exhaustive on small constants); every behaviour TLC enumerates to a depth (plus -simulate "
